@@ -13,12 +13,16 @@ func init() {
 	registerProperty(&PropertyInfo{
 		ID:    "C08",
 		Title: "Search answers depend only on the logical documents, not the layout",
-		Rules: []string{"C08.R1", "C02.R2", "C08.R3", "C08.R4", "C07.R2", "C06.R5", "C04.R2"},
+		Rules: []string{"C08.R1", "C02.R2", "C08.R3", "C08.R4", "C08.R5", "C08.R6", "C07.R2", "C06.R5", "C04.R2"},
 		Decides: "structural conditions of layout independence (narrow claim): builds are total, including the empty corpus - every constant-index access x[k] in package index is dominated by length facts (from ==, !=, <, <=, >, >= tests of len(x) and loop conditions) implying len(x) > k, with no possibly-shrinking operation in between; a backup copies every segment before the snapshot that names it (C02.R2 applied to Backup, no skip allowed); every registered segment plugin takes its five members from one package, the snapshot writer records each segment's own type and version and the loader selects the plugin by the RECORDED type and version; collection statistics are summed over every segment of the snapshot without a skip edge; multi-segment iterators globalise doc numbers (C07.R2) over offsets that are cumulative full sizes (C06.R5) and never mutate shared bitmaps (C04.R2).",
 		NotCovered: "equality of answers across build recipes; scores on merged segments (the segment library rewrites norms when it merges); MultiSearch merging.",
 	})
 	registerRule(&RuleInfo{ID: "C08.R1", Title: "constant-index accesses in package index are guarded by length facts", Floor: 15, Run: ruleC08R1,
 		Covers: "every x[k] with constant k on a slice in package index"})
+	registerRule(&RuleInfo{ID: "C08.R5", Title: "per-segment iterator construction carries no state from one segment to the next", Floor: 2, Run: ruleC08R5,
+		Covers: "loop-carried values of every loop over snapshot.segment that fills a per-segment iterator slot"})
+	registerRule(&RuleInfo{ID: "C08.R6", Title: "a changed heap root is re-sifted before the heap is looked at again", Floor: 1, Run: ruleC08R6,
+		Covers: "methods of heap.Interface implementations in package index that modify an element of the backing slice"})
 	registerRule(&RuleInfo{ID: "C08.R3", Title: "a segment is loaded with the plugin that wrote it", Floor: 4, Run: ruleC08R3,
 		Covers: "plugin literals of the default configuration; recorded type/version in the snapshot writer; plugin selection in the loader"})
 	registerRule(&RuleInfo{ID: "C08.R4", Title: "collection statistics are summed over every segment", Floor: 1, Run: ruleC08R4,
@@ -397,4 +401,243 @@ func ruleC08R4(c *Ctx) {
 		ex.Run()
 	}
 	c.Check(len(problems) == 0, "collection statistics visit every segment", c.Pos(segCall.Pos()), "every loop iteration merges (or starts from) the segment's statistics", uniqJoin(problems))
+}
+
+// ruleC08R5: the optimised (bitmap) iterators are built segment by segment; what is decided for
+// one segment must not depend on the segments visited before.
+func ruleC08R5(c *Ctx) {
+	a := c.Idx()
+	n := 0
+	for _, fn := range c.FuncsIn(pkgIndex) {
+		// per-segment slot stores: x.iterators[i] = ...
+		var slotStores []*ssa.Store
+		eachInstr(fn, func(in ssa.Instruction) {
+			st, ok := in.(*ssa.Store)
+			if !ok {
+				return
+			}
+			ia, ok := st.Addr.(*ssa.IndexAddr)
+			if !ok {
+				return
+			}
+			if f, _ := loadedField(ia.X); f != nil && f.Name() == "iterators" {
+				if _, isConst := ia.Index.(*ssa.Const); !isConst {
+					slotStores = append(slotStores, st)
+				}
+			}
+		})
+		if len(slotStores) == 0 {
+			continue
+		}
+		// the loop over snapshot.segment containing them
+		var head *ssa.BasicBlock
+		for _, st := range slotStores {
+			h := enclosingLoopHeader(st.Block())
+			for h != nil && !outermostLoop(h) {
+				var up *ssa.BasicBlock
+				for _, o := range fn.Blocks {
+					if o != h && naturalLoop(o)[h] {
+						isH := false
+						for _, p := range o.Preds {
+							if o.Dominates(p) {
+								isH = true
+							}
+						}
+						if isH {
+							up = o
+						}
+					}
+				}
+				if up == nil {
+					break
+				}
+				h = up
+			}
+			if h != nil {
+				head = h
+			}
+		}
+		if head == nil {
+			continue
+		}
+		// is it a loop over the snapshot's segments?
+		overSegments := false
+		eachInstr(fn, func(in ssa.Instruction) {
+			if call, ok := in.(*ssa.Call); ok && builtinName(call.Common()) == "len" && call.Block().Dominates(head) {
+				if f, _ := loadedField(call.Common().Args[0]); f == a.SnapSegment {
+					overSegments = true
+				}
+			}
+		})
+		if !overSegments {
+			continue
+		}
+		// the slots must be indexed by this loop's own range index
+		var idxPhi *ssa.Phi
+		for _, in := range head.Instrs {
+			if ph, ok := in.(*ssa.Phi); ok && strings.Contains(ph.Comment, "rangeindex") {
+				idxPhi = ph
+			}
+		}
+		byIndex := false
+		if idxPhi != nil {
+			for _, st := range slotStores {
+				if dependsOn(st.Addr.(*ssa.IndexAddr).Index, func(y ssa.Value) bool { return y == ssa.Value(idxPhi) }) {
+					byIndex = true
+				}
+			}
+		}
+		if !byIndex {
+			continue
+		}
+		n++
+		key := "no cross-segment state in " + FuncName(fn)
+		var problems []string
+		loop := naturalLoop(head)
+		for _, in := range head.Instrs {
+			ph, ok := in.(*ssa.Phi)
+			if !ok {
+				break
+			}
+			if strings.Contains(ph.Comment, "rangeindex") || ph.Referrers() == nil {
+				continue
+			}
+			// allowed: a scratch slice that is only ever re-sliced to length 0 at the top of the round
+			onlyReset := true
+			used := false
+			seenPhi := map[ssa.Value]bool{ph: true}
+			var scan func(v ssa.Value)
+			scan = func(v ssa.Value) {
+				if v.Referrers() == nil {
+					return
+				}
+				for _, r := range *v.Referrers() {
+					ri, ok := r.(ssa.Instruction)
+					if !ok || !loop[ri.Block()] {
+						continue
+					}
+					if p2, isPhi := r.(*ssa.Phi); isPhi {
+						if !seenPhi[p2] && p2.Block() != head {
+							seenPhi[p2] = true
+							scan(p2)
+						}
+						continue
+					}
+					used = true
+					if sl, isSlice := r.(*ssa.Slice); isSlice {
+						if k, okc := constInt(sl.High); okc && k == 0 && sl.Low == nil {
+							continue
+						}
+					}
+					onlyReset = false
+				}
+			}
+			scan(ph)
+			// loop-carried only matters when some back edge carries something else than the initial value
+			carried := false
+			for i, e := range ph.Edges {
+				if loop[head.Preds[i]] && e != ssa.Value(ph) {
+					carried = true
+				}
+			}
+			if used && carried && !onlyReset {
+				problems = append(problems, fmt.Sprintf("variable %s keeps its value from the previous segment's round (it is not re-initialised inside the loop) and is read there", strings.TrimPrefix(ph.Comment, "")))
+			}
+		}
+		c.Check(len(problems) == 0, key, c.Pos(head.Instrs[0].Pos()), "every value read in a round is (re)initialised in that round; scratch slices are reset with [:0]", uniqJoin(problems)+": the result for a segment depends on which segments precede it (layout dependence)")
+	}
+}
+
+// ruleC08R6: after the key of a heap element was changed in place, heap.Fix (or Pop/Init) must
+// run before the heap's elements are read again.
+func ruleC08R6(c *Ctx) {
+	hi := c.Iface("container/heap", "Interface")
+	n := 0
+	for _, tn := range c.Light().named {
+		if tn.Obj().Pkg().Path() != pkgIndex || !(types.Implements(tn, hi) || types.Implements(types.NewPointer(tn), hi)) {
+			continue
+		}
+		// backing slice: the field whose len() the Len method returns
+		lenM := methodOfNamed(c, tn, "Len")
+		var backing *types.Var
+		if lenM != nil {
+			eachInstr(lenM, func(in ssa.Instruction) {
+				if call, ok := in.(*ssa.Call); ok && builtinName(call.Common()) == "len" {
+					if f, _ := loadedField(call.Common().Args[0]); f != nil {
+						backing = f
+					}
+				}
+			})
+		}
+		if backing == nil {
+			continue
+		}
+		for _, fn := range c.FuncsIn(pkgIndex) {
+			if methodRecvNamed(fn) != tn || fn.Parent() != nil {
+				continue
+			}
+			switch fn.Name() {
+			case "Len", "Less", "Swap", "Push", "Pop":
+				continue
+			}
+			isElemAddr := func(v ssa.Value) bool {
+				return dependsOnStop(v, func(y ssa.Value) bool {
+					ia, ok := y.(*ssa.IndexAddr)
+					if !ok {
+						return false
+					}
+					f, _ := loadedField(ia.X)
+					return f == backing
+				}, func(y ssa.Value) bool { _, isCall := y.(*ssa.Call); return isCall })
+			}
+			modifies := false
+			eachInstr(fn, func(in ssa.Instruction) {
+				if st, ok := in.(*ssa.Store); ok {
+					if fa, ok := st.Addr.(*ssa.FieldAddr); ok && isElemAddr(fa.X) {
+						modifies = true
+					}
+				}
+			})
+			if !modifies {
+				continue
+			}
+			n++
+			key := "heap order restored after in-place key change in " + FuncName(fn)
+			const fDirty uint64 = 1
+			var problems []string
+			ex := &Explorer{Fn: fn}
+			ex.OnInstr = func(in ssa.Instruction, st *PState) bool {
+				switch x := in.(type) {
+				case *ssa.Store:
+					if fa, ok := x.Addr.(*ssa.FieldAddr); ok && isElemAddr(fa.X) {
+						st.Flags |= fDirty
+					}
+				case *ssa.Call:
+					if f := x.Common().StaticCallee(); f != nil && f.Pkg != nil && f.Pkg.Pkg.Path() == "container/heap" {
+						st.Flags &^= fDirty
+					}
+				case *ssa.UnOp:
+					if x.Op == token.MUL && st.Flags&fDirty != 0 {
+						if ia, ok := x.X.(*ssa.IndexAddr); ok {
+							if f, _ := loadedField(ia.X); f == backing {
+								problems = append(problems, "an element of the heap is read at "+c.Pos(in.Pos())+" after a key was changed in place and before heap.Fix restored the order")
+								return false
+							}
+						}
+					}
+				}
+				return true
+			}
+			ex.OnReturn = func(r *ssa.Return, st *PState) {
+				if st.Flags&fDirty != 0 {
+					problems = append(problems, "the method returns at "+c.Pos(r.Pos())+" with the heap order not restored")
+				}
+			}
+			ex.Run()
+			c.Check(len(problems) == 0 && !ex.Exceeded, key, c.Pos(fn.Pos()), "every in-place change of an element is followed by heap.Fix/Pop before the heap is read or the method returns", uniqJoin(problems))
+		}
+	}
+	if n == 0 {
+		c.Undecided("heap users in package index", "-", "no method modifying a heap element in place found (rule table stale)")
+	}
 }
